@@ -7,10 +7,12 @@ package c20
 import (
 	"context"
 	"fmt"
+	"math"
 	"runtime"
 	"sort"
 	"strings"
 	"sync"
+	"sync/atomic"
 	"testing"
 	"time"
 
@@ -68,20 +70,34 @@ func TestPropConcurrent(t *testing.T) {
 		rootChurn := rapid.IntRange(0, 3).Draw(t, "rootChurn") == 0
 		stopMid := rapid.IntRange(0, 3).Draw(t, "stopMidLoad") == 0
 		nw := rapid.IntRange(4, 10).Draw(t, "workers")
+		// in a third of the cases one worker sends a burst: hundreds of writes
+		// without waiting for the replies (many clients at once, as far as the
+		// store can tell); every one of them has to be answered
+		burstSize := 0
+		if rapid.IntRange(0, 2).Draw(t, "burst") == 0 {
+			// writes cost tens of milliseconds each in a race-detector build on one
+			// core, and the store serves one request at a time: a burst of writes is
+			// kept at 120 so that the other workers' requests are not starved beyond
+			// their own time-out; reads are cheap
+			burstSize = rapid.SampledFrom([]int{-300, -600, 120}).Draw(t, "burstSize") // negative: reads
+		}
 		progs := make([][]op, nw)
 		for w := range progs {
 			n := rapid.IntRange(20, 60).Draw(t, "nops")
 			for i := 0; i < n; i++ {
 				var o op
-				kinds := []string{"nodeWrite", "nodeWrite", "edgeWrite", "read", "read", "verify", "create", "pause", "maint", "login"}
+				kinds := []string{"nodeWrite", "nodeWrite", "edgeWrite", "read", "read", "verify", "create", "pause", "maint", "login", "refused"}
 				if rootChurn {
 					if w == 0 {
 						kinds = []string{"rootSwap", "rootSwap", "rootSwap", "nodeWrite", "pause"}
 					} else {
-						kinds = []string{"readRoot", "readRoot", "readRoot", "read", "nodeWrite", "verify", "edgeWrite"}
+						kinds = []string{"readRoot", "readRoot", "readRoot", "read", "nodeWrite", "verify", "edgeWrite", "refused"}
 					}
 				}
 				o.kind = rapid.SampledFrom(kinds).Draw(t, "kind")
+				if !rootChurn && w == 1 && i == n/2 && burstSize != 0 {
+					o.kind = "burst"
+				}
 				o.node = rapid.SampledFrom(sharedNodes).Draw(t, "node")
 				e := rapid.SampledFrom(edges).Draw(t, "edge")
 				if o.kind == "edgeWrite" {
@@ -156,6 +172,7 @@ func TestPropConcurrent(t *testing.T) {
 			}
 			return data.PbDecodeNodesRequest(m.Data)
 		}
+		var bursts atomic.Bool
 		overlaps := 0
 		var inflightWrites int32
 		_ = inflightWrites
@@ -282,6 +299,103 @@ func TestPropConcurrent(t *testing.T) {
 							}
 						} else if ns, derr := data.PbDecodeNodesRequest(m.Data); !isStopping() && !rootChurn && (derr != nil || len(ns) == 0) {
 							fail("worker %d: login of the admin user failed under load: %v %d nodes", w, derr, len(ns))
+						}
+					case "burst":
+						inbox := nc.NewRespInbox()
+						sub, err := nc.SubscribeSync(inbox + ".*")
+						if err != nil {
+							fail("worker %d: subscribe: %v", w, err)
+							continue
+						}
+						sub.SetPendingLimits(-1, -1)
+						reads := burstSize < 0
+						n := burstSize
+						if reads {
+							n = -n
+						}
+						mkPoint := func(i int) data.Point {
+							return data.Point{Type: identTypes[o.ident], Time: time.Unix(0, ts+int64(i)), Value: float64(i), Text: fmt.Sprint("burst", w), Origin: fmt.Sprint("w", w)}
+						}
+						idx0 := 0
+						if !reads {
+							mu.Lock()
+							idx0 = len(sent)
+							for i := 0; i < n; i++ {
+								sent = append(sent, ackd{target: o.node, p: fix.FromPoint(mkPoint(i))})
+							}
+							mu.Unlock()
+						}
+						for i := 0; i < n; i++ {
+							subj, b := "nodes.all."+o.node, []byte(nil)
+							if !reads {
+								bp := data.Points{mkPoint(i)}
+								subj = "p." + o.node
+								b, _ = bp.ToPb()
+							}
+							if err := nc.PublishRequest(subj, fmt.Sprintf("%s.%d", inbox, i), b); err != nil {
+								fail("worker %d: publish: %v", w, err)
+							}
+						}
+						nc.Flush()
+						// the store serves one request after the other: as long as replies keep
+						// coming nothing is wrong; silence for a whole request time-out is
+						answered := 0
+						lastReply := time.Now()
+						for answered < n && time.Since(lastReply) < fix.ReqTimeout && !isStopping() {
+							m, err := sub.NextMsg(200 * time.Millisecond)
+							if err != nil {
+								continue
+							}
+							answered++
+							lastReply = time.Now()
+							var i int
+							fmt.Sscanf(m.Subject[len(inbox)+1:], "%d", &i)
+							if reads {
+								if ns, err := data.PbDecodeNodesRequest(m.Data); (err != nil || len(ns) == 0) && !isStopping() {
+									fail("worker %d: read %d of a burst failed: %v, %d nodes", w, i, err, len(ns))
+								}
+								continue
+							}
+							if len(m.Data) != 0 {
+								if !isStopping() {
+									fail("worker %d: valid write %d of a burst refused: %s", w, i, m.Data)
+								}
+								continue
+							}
+							mu.Lock()
+							sent[idx0+i].acked = true
+							mu.Unlock()
+							if t := ts + int64(i); t > lastWrote[o.node+"|"+identTypes[o.ident]] {
+								lastWrote[o.node+"|"+identTypes[o.ident]] = t
+							}
+						}
+						sub.Unsubscribe()
+						if answered < n && !isStopping() {
+							fail("worker %d: only %d of %d requests (reads=%v) sent in one burst were answered; no further reply for %v", w, answered, n, reads, fix.ReqTimeout)
+						}
+						bursts.Store(true)
+					case "refused":
+						// a request the store must refuse is a request like any other: it is
+						// answered (with an error), and the store goes on serving the others
+						var subj string
+						var pts data.Points
+						switch k := (o.ident + o.pause) % 4; {
+						case k == 0 && !rootChurn:
+							subj, pts = "p.inst.root", data.Points{{Type: data.PointTypeTombstone, Value: 1, Time: time.Unix(0, ts)}}
+						case k == 1:
+							subj, pts = "p."+o.node+"."+o.node, data.Points{{Type: data.PointTypeTombstone, Time: time.Unix(0, ts)}, {Type: data.PointTypeNodeType, Text: "variable"}}
+						case k == 2:
+							subj, pts = "p.s0.s2", data.Points{{Type: data.PointTypeTombstone, Time: time.Unix(0, ts)}, {Type: data.PointTypeNodeType, Text: "variable"}}
+						default:
+							subj, pts = "p."+o.node, data.Points{{Type: "refusedNaN", Value: math.NaN(), Time: time.Unix(0, ts)}}
+						}
+						r, err := write(nc, subj, pts)
+						if err != nil {
+							if !isStopping() {
+								fail("worker %d: %s (a write that must be refused) got no reply: %v", w, subj, err)
+							}
+						} else if r == "" && !isStopping() {
+							fail("worker %d: %s %v was acknowledged although it must be refused", w, subj, pts)
 						}
 					case "create":
 						id := fmt.Sprintf("c%dx%d", w, seq)
@@ -442,6 +556,9 @@ func TestPropConcurrent(t *testing.T) {
 		}
 		_ = overlaps
 		cls := []string{fmt.Sprintf("gomaxprocs%d", procs)}
+		if bursts.Load() {
+			cls = append(cls, "burstOf>=120RequestsInFlight")
+		}
 		if rootChurn {
 			cls = append(cls, "rootChurn")
 		}
